@@ -645,16 +645,22 @@ var documentedLowerFields = []string{"ObjectDerefNode.Property", "VariableNode.N
 
 func runC08Field(c *Ctx) {
 	e := c.P.lowerEngine()
+	allLower := true
 	for _, f := range documentedLowerFields {
 		if _, known := e.lowerFields[f]; !known {
 			c.undecided("field "+f, 0, "no store to this field found")
+			allLower = false
 			continue
 		}
 		if e.lowerFields[f] {
 			c.ok("field "+f, 0, "every store assigns a lower-case value")
 		} else {
 			c.bad("field "+f, 0, "some store assigns a value that is not provably lower-case, but lookups rely on the field being lower-case")
+			allLower = false
 		}
+	}
+	if !allLower {
+		return // the summary below says that the documented fields are among the invariant ones
 	}
 	var inv []string
 	for f, ok := range e.lowerFields {
@@ -663,5 +669,5 @@ func runC08Field(c *Ctx) {
 		}
 	}
 	sort.Strings(inv)
-	c.ok("package|lower-case string fields", 0, fmt.Sprintf("%d string fields are lower-case invariant: %s", len(inv), shortList(inv, 12)))
+	c.ok("package|lower-case string fields", 0, fmt.Sprintf("%d string fields are lower-case invariant, all %d documented ones among them: %s", len(inv), len(documentedLowerFields), shortList(inv, 12)))
 }
